@@ -232,7 +232,7 @@ def run_setops(repo, task):
             if mode == 'pair':
                 pools = _pools()
                 nb = len(pools[pb][0])
-                forms = ('index', 'array', 'list') if pa == pb else ('index',)
+                forms = ('index', 'array', 'list') if pa == pb and (tier != 'quick' or pa in ('int', 'str', 'obj', 'date', 'ih2', 'tuple')) else ('index',)
                 for B in _arrangements(nb, kb):
                     for form in forms:
                         if form != 'index' and pa.startswith('ih') and not B:
@@ -590,7 +590,7 @@ def check_binop_case(p, strict=False):
     except Exception as e:
         if ref['np_unsupported'] or dtype_unsupported(d, opname):
             return [], None, False           # NumPy cannot combine these dtypes: outside the quantifier
-        if ref['fill_raises'] and not ref['aligned']:
+        if not ref['aligned'] and (ref['fill_raises'] or fill_unsupported(d, opname)):
             # the operator is undefined between a value and the NaN fill (bool & NaN, str + NaN): arguable, failed only when strict
             if strict:
                 return [(f'{area}:unaligned-{_opclass(opname)}-raises', f'{_desc(p)}: raises {e!r} although NumPy can combine the operand dtypes on the shared labels')], ('raises',), True
@@ -643,7 +643,13 @@ def check_binop_case(p, strict=False):
                     fails.append((f'{area}:{_opclass(opname)}:dtype-changed-on-equal-index',
                                   f'{_desc(p)}: column {cl[j]} has dtype {got_dt}, NumPy gives {e_dt} for the un-filled operands'))
                     break
-    mapping = tuple(sorted(((repr(k), _canon(v)) for k, v in cells.items())))
+    def both_bool(k):
+        src = ref['cells'].get(k, (None, None, (None, None)))[2]
+        return all(isinstance(z, (bool, np.bool_)) for z in src)
+    # bool (+|*) bool is True under NumPy and 2 / 1 under Python (object columns after a fill or a whole-frame .values fallback):
+    # compared by truth value unless strict
+    lax = (not strict) and opname in ARITH + REFL
+    mapping = tuple(sorted(((repr(k), _canon(bool(v)) if (lax and both_bool(k) and not _is_missing(v)) else _canon(v)) for k, v in cells.items())))
     return fails, mapping, ref['shared'] > 0 or len(cells) > 0
 
 
@@ -652,8 +658,7 @@ def _empty_key(p, e):
     k = p['kind']
     if k != 'SS':
         cols = set(p['ca']) | set(p['cb'] if k in ('FF', 'FS0') else ())
-        rows = set(p['ra']) | set(p['rb'] if k in ('FF', 'FS1') else ())
-        if not cols and rows:
+        if not cols:
             return f'{PID}:binop:zero-column-frame:raises'     # any operator on a Frame with rows but no columns
     if k == 'FF' and any(bool(r) != bool(c) for r, c in ((p['ra'], p['ca']), (p['rb'], p['cb']))):
         return f'{PID}:binop:FF:operand-empty-on-one-axis:raises'      # re-indexing on both axes with one axis sharing no label
@@ -689,6 +694,22 @@ def dtype_unsupported(d, opname):
                 fn(x[:0], y[:0])
             except Exception:
                 return True
+    return False
+
+
+def fill_unsupported(d, opname):
+    """True when NumPy refuses the operator between the float64 NaN fill and the dtype of some operand column
+    (decided on zero-length arrays: also works for operands without rows)"""
+    fn = cell_fn(opname)
+    nanfill = np.empty(0, dtype=np.float64)
+    with warnings.catch_warnings():
+        warnings.simplefilter('ignore')
+        for z in list(d['arrays_a']) + list(d['arrays_b']):
+            for args in ((nanfill, z[:0]), (z[:0], nanfill)):
+                try:
+                    fn(*args)
+                except Exception:
+                    return True
     return False
 
 
@@ -863,13 +884,15 @@ def _binop_cases(tier):
                     yield dict(kind='FF', lp=lp, plan=plan, rel_r=rn, rel_c=cn, ra=ra, rb=rb, ca=ca, cb=cb)
     # Frame x Series on both axes
     for kind in ('FS0', 'FS1'):
-        for lp in ('str', 'ih2', 'date') if tier == 'quick' else lpools:
+        for lp in ('str', 'ih2') if tier == 'quick' else lpools:
             for plan in PLANS:
                 for rn, (a, b) in rel.items():
                     yield dict(kind=kind, lp=lp, plan=plan, rel_r=rn, rel_c=None, a=a, b=b)
     # scalars and arrays
     for kind in ('Sk', 'Fk', 'SA', 'FA0', 'FA1', 'FA2'):
         for lp in ('str', 'ih2'):
+            if tier == 'quick' and lp == 'ih2' and kind in ('FA0', 'FA1', 'FA2'):
+                continue
             for plan in PLANS:
                 yield dict(kind=kind, lp=lp, plan=plan, rel_r=None, rel_c=None)
 
@@ -1088,11 +1111,11 @@ def run_reindex(repo, task):
             dst_cols = [None] if case['cb'] is None else _perms(case['cb'], tier)
             src_orders = [(case['ra'], case['ca']), (tuple(case['ra'])[::-1], tuple(case['ca'])[::-1])]
             for (ra, ca) in dict.fromkeys(src_orders):
-                lays = [None] if case['kind'] == 'RS' else _layouts_for(ka, ca, tier, True)
-                for la in lays:
+                lays = [None] if case['kind'] == 'RS' else _layouts_for(ka, ca, tier, tier != 'quick' or (ra, ca) == src_orders[0])
+                for li, la in enumerate(lays):
                     for rb in dst_rows:
                         for cb in dst_cols:
-                            for fill in (None, -1):
+                            for fill in ((None, -1) if (tier != 'quick' or li == 0) else (None,)):
                                 p = dict(area='reindex', kind=case['kind'], lp=case['lp'], plan=case['plan'], ra=list(ra), ca=list(ca),
                                          rb=None if rb is None else list(rb), cb=None if cb is None else list(cb),
                                          la=None if la is None else [list(t) for t in la], fill=fill)
